@@ -1,5 +1,5 @@
 """C01 — IH5 overlay is transparent (P-tier: child-resolution kernel; whole-history refinement is bounded)."""
-from . import findfiles, overlay, ovlgroup, ovlguards, ovlread
+from . import findfiles, h5copy, overlay, ovlgroup, ovlguards, ovlread
 
 
 def build(reg):
@@ -10,7 +10,8 @@ def build(reg):
     specs += overlay.add_copy_move(reg)
     specs += ovlread.add_ovlread2(reg)
     specs += ovlgroup.add_ovlgroup(reg)
+    specs += h5copy.add_h5copy(reg)  # the copy underneath IH5Group.copy / move
     specs += ovlread.add_ovlread(reg)  # from the kernel to node[key] / in / get
     specs += [x for x in ovlguards.add_ovlguards(reg) if 'C01' in x.props]  # dataset nodes: read from the resolved container, write only into the newest
     specs += findfiles.add_findfiles(reg)  # reopening by name sees every container of the chain
-    return {"verify": specs, "lemmas": [("visit-in-listing-order", ovlgroup.lemma_listing_order)], "trusted": [overlay.T1_READ, overlay.T1_WRITE, overlay.T_NUMPY] + findfiles.T_FIND + ovlread.T_READ + ovlread.T_WALK + ovlguards.T_GUARDS + ovlgroup.T_VISIT, "assumptions": ["iteration order of the result dict (alphabetical) is not modelled"]}
+    return {"verify": specs, "lemmas": [("visit-in-listing-order", ovlgroup.lemma_listing_order)], "trusted": [overlay.T1_READ, overlay.T1_WRITE, overlay.T_NUMPY] + findfiles.T_FIND + ovlread.T_READ + ovlread.T_WALK + ovlguards.T_GUARDS + ovlgroup.T_VISIT + h5copy.T_COPY, "assumptions": ["iteration order of the result dict (alphabetical) is not modelled"]}
